@@ -243,7 +243,9 @@ def _w_hyp(args):
     st = Stats()
     strategy = mod.STRATEGIES[sname](tier)
     seen = set()
-    phases = [Phase.generate, Phase.shrink] if getattr(mod, 'SHRINK', True) else [Phase.generate]
+    phases = [Phase.generate, Phase.shrink]
+    if not getattr(mod, 'SHRINK', True) or os.environ.get('VF_NOSHRINK'):
+        phases = [Phase.generate]  # development aid: collect signatures fast, unshrunk
     for rnd in range(4):
         box = {}
 
